@@ -56,4 +56,12 @@ def gensOf (n : Nat) (rows : List GRow) : Option GridGens :=
 def GWf (n : Nat) (rows : List GRow) : Prop := ∀ r ∈ rows, r.e.length = n + 2
 def CWf (n : Nat) (rows : List CRow) : Prop := ∀ r ∈ rows, r.e.length = n + 1 ∧ 0 ≤ r.m
 
+/-- the divisors of a generator system are normalised (decidable form of `GNorm`, `ProofsRedBridge.lean`): row 0 is a
+    point with divisor `D > 0`; every other parameter/point row has `e[0] = D`, or `e[0] = 0` and `D` in the parameter
+    divisor column; lines have `e[0] = 0` -/
+def gnormB (n : Nat) (rows : List GRow) : Bool :=
+  let D := get (rowAt rows 0).e 0
+  decide (0 < D) && decide (0 < rows.length) && !(rowAt rows 0).line &&
+    rows.all fun r => if r.line then get r.e 0 == 0 else (get r.e 0 == D) || (get r.e 0 == 0 && get r.e (n + 1) == D)
+
 end PPLV.Lattice.Red
